@@ -157,12 +157,12 @@ def spec_c11(case, trace):
 def _chunk(args):
     cases, want_model = args
     text = "\n".join("\n".join(c) for c in cases) + "\n"
-    rc, impl, err = C.run_vh("runsched", text, timeout=3000)
+    rc, impl, err = C.run_vh("runsched", text, timeout=900)
     if rc != 0:
         return ("error", "vh runsched failed: " + err[-300:], None)
     model = None
     if want_model:
-        rc, model, err = C.run_drv("runsched", text, timeout=3000)
+        rc, model, err = C.run_drv("runsched", text, timeout=900)
         if rc != 0:
             return ("error", "drv runsched failed: " + err[-300:], None)
         model = split_cases(model.splitlines())
